@@ -138,10 +138,10 @@ MUTS = [
     ('SI5', 'preserve', 'C17', M, "if s.get_metadata('index') == section_index or section_index is None]", "if section_index is None or s.get_metadata('index') == section_index]"),
     ('SI6', 'unsupported', 'C17', M, "for parameter in section:", "for parameter in list(section):"),
     # tables.py dispatch tests of template building (round 3)
-    ('SJ1', 'change', 'C14', T, "        if id_ >= 300000:", "        if id_ > 300000:"),
+    ('SJ1', 'change', 'C14', T, "        if id_ >= 300000:\n            descriptors.append(d.lookup(id_))", "        if id_ > 300000:\n            descriptors.append(d.lookup(id_))"),
     ('SJ2', 'change', 'C14', T, "        if id_ % 1000 == 0:\n            return DelayedReplicationDescriptor(id_)", "        if id_ % 100 == 0:\n            return DelayedReplicationDescriptor(id_)"),
-    ('SJ3', 'change', 'C14', T, "        elif id_ >= 100000:", "        elif id_ >= 110000:"),
-    ('SJ4', 'preserve', 'C14', T, "        if id_ >= 300000:", "        if 300000 <= id_:"),
+    ('SJ3', 'change', 'C14', T, "        elif id_ >= 100000:\n            descriptor = r.lookup(id_)\n            if isinstance", "        elif id_ >= 110000:\n            descriptor = r.lookup(id_)\n            if isinstance"),
+    ('SJ4', 'preserve', 'C14', T, "        if id_ >= 300000:\n            descriptors.append(d.lookup(id_))", "        if 300000 <= id_:\n            descriptors.append(d.lookup(id_))"),
     # ---- stage D: the whole NodePathParser of dataquery.py (stateful class, C15_src_parse_eq) ----------------
     ('D1', 'change', 'C15', Q, "                if self.current_state == STATE_START_PARSING:\n                    self.current_state = STATE_START_SUBSET\n",
      "                if True:\n                    self.current_state = STATE_START_SUBSET\n"),
